@@ -447,4 +447,369 @@ theorem step_cacheValid {ops : Ops F64 R Q U} {sig : Q → H} {eqH : H → H →
 
 end CachePreserve
 
+/-! ## Schedules of tasks on pairwise disjoint components -/
+section Sched
+variable {C : Type}
+
+theorem modifyAt_getElem? (f : C → C) (i : Nat) (σ : List C) (j : Nat) :
+    (modifyAt f i σ)[j]? = if i = j then σ[j]?.map f else σ[j]? := by
+  induction σ generalizing i j with
+  | nil => simp [modifyAt]
+  | cons c cs ih =>
+    cases i with
+    | zero =>
+      cases j with
+      | zero => simp [modifyAt]
+      | succ j => simp [modifyAt]
+    | succ i =>
+      cases j with
+      | zero => simp [modifyAt]
+      | succ j => simp [modifyAt, ih]
+
+theorem modifyAt_length (f : C → C) (i : Nat) (σ : List C) : (modifyAt f i σ).length = σ.length := by
+  induction σ generalizing i with
+  | nil => cases i <;> simp [modifyAt]
+  | cons c cs ih => cases i <;> simp [modifyAt, ih]
+
+/-- what a schedule does to component `i` is: apply `i`'s own tasks in their order -/
+theorem runTasks_getElem? (ts : List (Task C)) (σ : List C) (i : Nat) :
+    (runTasks ts σ)[i]? = (σ[i]?).map (applyAll (proj i ts)) := by
+  induction ts generalizing σ with
+  | nil =>
+    have : applyAll (proj i ([] : List (Task C))) = id := rfl
+    rw [this]
+    simp [runTasks]
+  | cons t ts ih =>
+    have : runTasks (t :: ts) σ = runTasks ts (modifyAt t.f t.idx σ) := rfl
+    rw [this, ih, modifyAt_getElem?]
+    by_cases h : t.idx = i
+    · subst h
+      simp only [if_true, proj, List.filter_cons, beq_self_eq_true, List.map_cons, Option.map_map]
+      rfl
+    · have hb : (t.idx == i) = false := by simpa using h
+      simp only [h, if_false, proj, List.filter_cons, hb]
+      rfl
+
+/-- **Schedule independence**: two schedules that show every component the same sequence of its own tasks end in
+the same state — in particular every interleaving of the per-component task lists. -/
+theorem schedule_independent (s1 s2 : List (Task C)) (σ : List C) (h : ∀ i, proj i s1 = proj i s2) :
+    runTasks s1 σ = runTasks s2 σ := by
+  apply List.ext_getElem?
+  intro i
+  rw [runTasks_getElem?, runTasks_getElem?, h i]
+
+theorem mapIdxFrom_getElem? (f : Nat → C → C) (k : Nat) (σ : List C) (i : Nat) :
+    (mapIdxFrom f k σ)[i]? = (σ[i]?).map (f (k + i)) := by
+  induction σ generalizing k i with
+  | nil => simp [mapIdxFrom]
+  | cons c cs ih =>
+    cases i with
+    | zero => simp [mapIdxFrom]
+    | succ i =>
+      simp only [mapIdxFrom, List.getElem?_cons_succ, ih]
+      congr 2
+      omega
+
+theorem mapIdxFrom_const (g : C → C) (k : Nat) (σ : List C) : mapIdxFrom (fun _ => g) k σ = σ.map g := by
+  induction σ generalizing k with
+  | nil => rfl
+  | cons c cs ih => simp [mapIdxFrom, ih]
+
+theorem proj_order (f : Nat → C → C) (order : List Nat) (n : Nat) (h : order.Perm (List.range n)) (i : Nat) :
+    proj i (order.map fun j => (⟨j, f j⟩ : Task C)) = if i < n then [f i] else [] := by
+  unfold proj
+  rw [List.filter_map]
+  have hf : ((fun t : Task C => t.idx == i) ∘ fun j => (⟨j, f j⟩ : Task C)) = fun j => j == i := rfl
+  rw [hf, List.filter_beq, h.count_eq, List.count_range]
+  split <;> simp
+
+/-- a `par_iter_mut` section run in ANY order of its tasks equals the sequential loop -/
+theorem parSection_eq (f : Nat → C → C) (order : List Nat) (σ : List C) (h : order.Perm (List.range σ.length)) :
+    parSection f order σ = mapIdxFrom f 0 σ := by
+  apply List.ext_getElem?
+  intro i
+  rw [parSection, runTasks_getElem?, proj_order f order σ.length h, mapIdxFrom_getElem?]
+  by_cases hi : i < σ.length
+  · simp [hi, applyAll]
+  · have : σ[i]? = none := by simp; omega
+    simp [this]
+
+theorem parSection_const (g : C → C) (order : List Nat) (σ : List C) (h : order.Perm (List.range σ.length)) :
+    parSection (fun _ => g) order σ = σ.map g := by
+  rw [parSection_eq _ _ _ h, mapIdxFrom_const]
+
+end Sched
+
+/-! ## Pre-drawn swap uniforms: the rayon swap routine equals the serial one -/
+section Swaps
+variable {F64 R Q U : Type}
+
+theorem chunks2_length {α : Type} : ∀ (l : List α), (chunks2 l).length = l.length / 2
+  | a :: b :: rest => by
+    simp only [chunks2, List.length_cons, chunks2_length rest]
+    omega
+  | [a] => by simp [chunks2]
+  | [] => by simp [chunks2]
+
+theorem drawN_length (ops : Ops F64 R Q U) : ∀ (k : Nat) (r : R), (drawN ops k r).1.length = k
+  | 0, r => rfl
+  | k + 1, r => by simp [drawN, drawN_length ops k]
+
+/-- serial `perform_swaps` written as "draw everything, then map the pair task" -/
+theorem performSwaps_eq_drawn (ops : Ops F64 R Q U) :
+    ∀ (r : R) (l : List (Q × F64)) (eqs : List Bool), l.length / 2 ≤ eqs.length →
+      performSwaps ops r l eqs =
+        (unchunks2 (((((chunks2 l).zip ((drawN ops (l.length / 2) r).1.zip eqs)).map (fun c => (c, false))).map
+            (pairTask ops)).map (·.1.1)) ++ l.drop (2 * ((chunks2 l).zip ((drawN ops (l.length / 2) r).1.zip eqs)).length),
+          (drawN ops (l.length / 2) r).2,
+          countTrue (((((chunks2 l).zip ((drawN ops (l.length / 2) r).1.zip eqs)).map (fun c => (c, false))).map
+            (pairTask ops)).map (·.2)))
+  | r, a :: b :: rest, [], h => by
+    exfalso
+    simp only [List.length_cons, List.length_nil] at h
+    omega
+  | r, a :: b :: rest, eq :: eqs', h => by
+    have hlen : (a :: b :: rest).length / 2 = rest.length / 2 + 1 := by simp only [List.length_cons]; omega
+    have h' : rest.length / 2 ≤ eqs'.length := by
+      simp only [List.length_cons] at h; omega
+    have ih := performSwaps_eq_drawn ops (ops.genUnif r).2 rest eqs' h'
+    rw [hlen]
+    simp only [performSwaps, drawN, chunks2, List.zip_cons_cons, List.map_cons, pairTask, unchunks2, ih,
+      List.length_cons, List.cons_append, countTrue, List.filter_cons, id]
+    refine Prod.ext ?_ (Prod.ext rfl ?_)
+    · simp only [List.cons.injEq, true_and]
+      congr 1
+    · simp only
+      split <;> simp
+  | r, [a], eqs, _ => by simp [performSwaps, drawN, chunks2, unchunks2, countTrue]
+  | r, [], eqs, _ => by simp [performSwaps, drawN, chunks2, unchunks2, countTrue]
+
+/-- **`swap_uniforms_pre_drawn`**: the parallel swap routine (uniforms drawn before the parallel section, pair tasks in
+any order) returns the same replicas, RNG and swap count as the serial routine — same draws, same order. -/
+theorem parPerformSwaps_eq (ops : Ops F64 R Q U) (order : List Nat) (r : R) (l : List (Q × F64)) (eqs : List Bool)
+    (hlen : l.length / 2 ≤ eqs.length) (hord : order.Perm (List.range (min (l.length / 2) eqs.length))) :
+    parPerformSwaps ops order r l eqs = performSwaps ops r l eqs := by
+  unfold parPerformSwaps
+  split
+  · rename_i he
+    have : l = [] := by simpa using he
+    subst this
+    simp [performSwaps]
+  · rw [performSwaps_eq_drawn ops r l eqs hlen]
+    have hc : (((chunks2 l).zip ((drawN ops (l.length / 2) r).1.zip eqs)).map (fun c => (c, false))).length
+        = min (l.length / 2) eqs.length := by
+      simp [chunks2_length, drawN_length]
+    simp only
+    rw [parSection_const _ _ _ (by rw [hc]; exact hord)]
+    simp
+
+end Swaps
+
+/-! ## The rayon tempering step equals the serial one under every valid scheduler -/
+section ParStep
+variable {F64 R Q U : Type}
+
+/-- enough cached equalities for the pairs of the first sub-slice -/
+def CacheLen (tc : TC F64 R Q) : Prop :=
+  (tc.graphs.length - tc.graphs.length % 2) / 2 ≤ (tc.graph_ham_eq_a.getD []).length
+
+theorem firstSub_fst_length {α : Type} (l : List α) : (firstSub l).1.length = l.length - l.length % 2 := by
+  simp only [firstSub, List.length_take]
+  omega
+
+theorem eqsOf_length (ops : Ops F64 R Q U) : ∀ l : List (Q × F64), (eqsOf ops l).length = l.length / 2
+  | a :: b :: rest => by
+    simp only [eqsOf, List.length_cons, eqsOf_length ops rest]
+    omega
+  | [a] => by simp [eqsOf]
+  | [] => by simp [eqsOf]
+
+theorem performSwaps_length (ops : Ops F64 R Q U) :
+    ∀ (r : R) (l : List (Q × F64)) (eqs : List Bool), (performSwaps ops r l eqs).1.length = l.length
+  | r, a :: b :: rest, [] => by simp [performSwaps]
+  | r, a :: b :: rest, eq :: eqs' => by
+    have ih := performSwaps_length ops (ops.genUnif r).2 rest eqs'
+    simp only [performSwaps, List.length_cons, ih]
+  | r, [a], eqs => by simp [performSwaps]
+  | r, [], eqs => by simp [performSwaps]
+
+theorem phaseB_serial_length (ops : Ops F64 R Q U) (s : TC F64 R Q × R) :
+    (phaseB (performSwaps ops) s).1.graphs.length = s.1.graphs.length := by
+  have h := congrArg List.length (secondSub_append s.1.graphs)
+  simp only [List.length_append] at h
+  simp only [phaseB, List.length_append, performSwaps_length]
+  exact h
+
+theorem cacheLen_ensure (ops : Ops F64 R Q U) (tc : TC F64 R Q) (h : CacheValid ops tc) :
+    CacheLen (ensureCaches ops tc) := by
+  rw [ensure_of_valid ops tc h]
+  show _ ≤ (eqsOf ops (firstSub tc.graphs).1).length
+  rw [eqsOf_length, firstSub_fst_length]
+  exact Nat.le_refl _
+
+theorem phaseA_par_eq (ops : Ops F64 R Q U) (sched : Scheduler) (hv : sched.Valid) (k : Nat) (s : TC F64 R Q × R)
+    (h : CacheLen s.1) :
+    phaseA (fun r l eqs => parPerformSwaps ops (sched 2 k (min (l.length / 2) eqs.length)) r l eqs) s
+      = phaseA (performSwaps ops) s := by
+  unfold phaseA
+  simp only
+  rw [parPerformSwaps_eq ops _ s.2 (firstSub s.1.graphs).1 (s.1.graph_ham_eq_a.getD [])
+    (by rw [firstSub_fst_length]; exact h) (hv 2 k _)]
+
+theorem rest_par_eq (ops : Ops F64 R Q U) (sched : Scheduler) (hv : sched.Valid) (k : Nat) (tc : TC F64 R Q)
+    (h : CacheLen tc) :
+    temperingRest ops (fun c l => parSection (fun _ g => (ops.setCutoff c g.1, g.2)) (sched 1 k l.length) l)
+        (fun r l eqs => parPerformSwaps ops (sched 2 k (min (l.length / 2) eqs.length)) r l eqs)
+        (performSwaps ops) tc
+      = temperingRest ops (setAllSerial ops) (performSwaps ops) (performSwaps ops) tc := by
+  unfold temperingRest
+  simp only
+  rw [parSection_const _ _ _ (hv 1 k _)]
+  have hset : (tc.graphs.map fun g => (ops.setCutoff (maxCutoff ops tc.graphs) g.1, g.2))
+      = setAllSerial ops (maxCutoff ops tc.graphs) tc.graphs := rfl
+  rw [hset]
+  split
+  · rfl
+  · rename_i r hr
+    have hl : (setAllSerial ops (maxCutoff ops tc.graphs) tc.graphs).length = tc.graphs.length := by
+      simp [setAllSerial]
+    have h1 : CacheLen ({ tc with graphs := setAllSerial ops (maxCutoff ops tc.graphs) tc.graphs }, (ops.genHalf r).2).1 := by
+      show (_ - _ % 2) / 2 ≤ _
+      simp only [hl]
+      exact h
+    have h2 : CacheLen (phaseB (performSwaps ops)
+        ({ tc with graphs := setAllSerial ops (maxCutoff ops tc.graphs) tc.graphs }, (ops.genHalf r).2)).1 := by
+      show (_ - _ % 2) / 2 ≤ _
+      rw [phaseB_serial_length]
+      exact h1
+    rw [phaseA_par_eq ops sched hv k _ h1, phaseA_par_eq ops sched hv k _ h2]
+
+/-- **parallel_tempering_step = tempering_step** for every valid scheduler (any pool size, any interleaving), as
+soon as the container does not hold exactly one replica (see `one_replica_differs`). -/
+theorem parTemperingStep_eq (ops : Ops F64 R Q U) (sched : Scheduler) (hv : sched.Valid) (k : Nat) (tc : TC F64 R Q)
+    (hc : CacheValid ops tc) (h1 : tc.graphs.length ≠ 1) :
+    parTemperingStep ops sched k tc = temperingStep ops tc := by
+  unfold parTemperingStep temperingStep
+  by_cases he : tc.graphs = []
+  · simp [he]
+  · have hne : tc.graphs.isEmpty = false := by simpa using he
+    have hlen : ¬ tc.graphs.length ≤ 1 := by
+      have : tc.graphs.length ≠ 0 := by simpa using he
+      omega
+    simp only [hne, hlen, if_false, Bool.false_eq_true]
+    unfold temperingBody
+    exact rest_par_eq ops sched hv k _ (cacheLen_ensure ops tc hc)
+
+end ParStep
+
+/-! ## `parallel_timesteps_sample` = `timesteps_sample` -/
+section Driver
+variable {F64 R Q U E A S H : Type}
+
+theorem sampleLoop_congr (b1 b2 : Nat → LoopState F64 R Q A S → LoopState F64 R Q A S)
+    (Inv : LoopState F64 R Q A S → Prop)
+    (hb : ∀ k s, Inv s → b1 k s = b2 k s ∧ Inv (b2 k s)) :
+    ∀ (fuel k : Nat) (s : LoopState F64 R Q A S), Inv s → sampleLoop b1 fuel k s = sampleLoop b2 fuel k s
+  | 0, _, _, _ => rfl
+  | fuel + 1, k, s, hi => by
+    simp only [sampleLoop]
+    split
+    · rfl
+    · rw [(hb k s hi).1]
+      exact sampleLoop_congr b1 b2 Inv hb fuel (k + 1) _ (hb k s hi).2
+
+theorem cacheValid_of_sigs {ops : Ops F64 R Q U} {sig : Q → H} {eqH : H → H → Bool} (hs : HamStable ops sig eqH)
+    (tc : TC F64 R Q) (g' : List (Q × F64)) (hg : sigs sig g' = sigs sig tc.graphs) (h : CacheValid ops tc) :
+    CacheValid ops { tc with graphs := g' } := by
+  obtain ⟨ha, hb⟩ := h
+  constructor
+  · rcases ha with ha | ha
+    · exact Or.inl ha
+    · right
+      show tc.graph_ham_eq_a = some (eqsOf ops (firstSub g').1)
+      rw [ha, eqsOf_congr hs _ _ (sigs_firstSub sig _ _ hg)]
+  · rcases hb with hb | hb
+    · exact Or.inl hb
+    · right
+      show tc.graph_ham_eq_b = some (eqsOf ops (secondSub g').2.1)
+      rw [hb, eqsOf_congr hs _ _ (sigs_secondSub sig _ _ hg)]
+
+theorem step_length {ops : Ops F64 R Q U} {sig : Q → H} {eqH : H → H → Bool} (hs : HamStable ops sig eqH)
+    (tc : TC F64 R Q) : (temperingStep ops tc).graphs.length = tc.graphs.length := by
+  unfold temperingStep
+  split
+  · rfl
+  · unfold temperingBody
+    have h := (rest_keeps (ops := ops) (sig := sig) (setAllSerial_sigs hs) (performSwaps_sigs hs) (performSwaps_sigs hs)
+      (ensureCaches ops tc)).1
+    have h2 := congrArg List.length h
+    rw [sigs_length, sigs_length] at h2
+    rw [h2]
+    unfold ensureCaches
+    split <;> rfl
+
+/-- the loop invariant of the sampling drivers -/
+def DriverInv (ops : Ops F64 R Q U) (s : LoopState F64 R Q A S) : Prop :=
+  s.acc.length = s.tc.graphs.length ∧ s.states.length = s.tc.graphs.length ∧ CacheValid ops s.tc ∧
+    s.tc.graphs.length ≠ 1
+
+theorem stepped_graphs (so : SampleOps F64 Q E A S) (sig : Q → H)
+    (hts : ∀ t b q, sig (so.timesteps t b q).1 = sig q) (t : Nat) :
+    ∀ (g : List (Q × F64)) (acc : List A), acc.length = g.length →
+      sigs sig (((g.zip acc).map (stepTask so t)).map (·.1)) = sigs sig g ∧
+      (((g.zip acc).map (stepTask so t)).map (·.2)).length = g.length
+  | [], _, _ => by simp [sigs]
+  | q :: g, [], h => by simp at h
+  | q :: g, a :: acc, h => by
+    have ih := stepped_graphs so sig hts t g acc (by simpa using h)
+    simp only [sigs, List.zip_cons_cons, List.map_cons, stepTask, List.length_cons, List.map_map] at *
+    exact ⟨by rw [hts, ih.1], by rw [ih.2]⟩
+
+theorem body_eq_and_inv {ops : Ops F64 R Q U} {sig : Q → H} {eqH : H → H → Bool} (hs : HamStable ops sig eqH)
+    (so : SampleOps F64 Q E A S) (hts : ∀ t b q, sig (so.timesteps t b q).1 = sig q)
+    (sched : Scheduler) (hv : sched.Valid) (swapFreq sampleFreq : Nat) (k : Nat) (s : LoopState F64 R Q A S)
+    (hi : DriverInv ops s) :
+    loopBody (fun t σ => parSection (fun _ => stepTask so t) (sched 0 k σ.length) σ) (parTemperingStep ops sched k)
+        (fun σ => parSection (fun _ => sampleTask so) (sched 3 k σ.length) σ) swapFreq sampleFreq s
+      = loopBody (fun t σ => σ.map (stepTask so t)) (temperingStep ops) (fun σ => σ.map (sampleTask so))
+          swapFreq sampleFreq s ∧
+    DriverInv ops (loopBody (fun t σ => σ.map (stepTask so t)) (temperingStep ops) (fun σ => σ.map (sampleTask so))
+          swapFreq sampleFreq s) := by
+  obtain ⟨hacc, hst, hcv, hn1⟩ := hi
+  obtain ⟨hsig, hlen2⟩ := stepped_graphs so sig hts (min (min s.toSample s.toSwap) s.remaining) s.tc.graphs s.acc hacc
+  have hlen1 : (((s.tc.graphs.zip s.acc).map (stepTask so (min (min s.toSample s.toSwap) s.remaining))).map (·.1)).length
+      = s.tc.graphs.length := by
+    have := congrArg List.length hsig
+    rwa [sigs_length, sigs_length] at this
+  have hcv' := cacheValid_of_sigs hs s.tc _ hsig hcv
+  have hpar := parTemperingStep_eq ops sched hv k
+    { s.tc with graphs := ((s.tc.graphs.zip s.acc).map (stepTask so (min (min s.toSample s.toSwap) s.remaining))).map (·.1) }
+    hcv' (by show List.length _ ≠ 1; rw [hlen1]; exact hn1)
+  have hsl := step_length hs
+    { s.tc with graphs := ((s.tc.graphs.zip s.acc).map (stepTask so (min (min s.toSample s.toSwap) s.remaining))).map (·.1) }
+  have hscv := step_cacheValid hs _ hcv'
+  constructor
+  · unfold loopBody
+    simp only [parSection_const _ _ _ (hv 0 k _), parSection_const _ _ _ (hv 3 k _), hpar]
+  · unfold loopBody
+    simp only
+    refine ⟨?_, ?_, ?_, ?_⟩
+    · simp only [hlen2]
+      split
+      · rw [hsl]; exact hlen1.symm
+      · exact hlen1.symm
+    · split <;> split <;> simp_all
+    · split
+      · exact hscv
+      · exact hcv'
+    · split
+      · show List.length _ ≠ 1
+        rw [hsl]
+        show List.length _ ≠ 1
+        rw [hlen1]; exact hn1
+      · show List.length _ ≠ 1
+        rw [hlen1]; exact hn1
+
+end Driver
+
 end Qmc.Snap
